@@ -54,7 +54,13 @@ def build(payload, fill, talker='AI', typ='VDM', channel='A', seq=None, cuts=(),
     if n > 1 and seq is None:
         seq = 0
     out = []
+    per_part = (talker, typ, channel, tag, suffix)
+
+    def pick(x, i):
+        return x[i - 1] if isinstance(x, list) else x
     for i, ch in enumerate(chunks, 1):
+        # carrier details may differ from sentence to sentence (Spec/CarrierSpec.v gives every part its own options)
+        talker, typ, channel, tag, suffix = (pick(x, i) for x in per_part)
         s = ais.sentence(talker + typ, n, i, seq, channel, ch, fill if i == n else 0)
         if bad_checksum_on is not None and i - 1 == bad_checksum_on:
             cs = int(s[-2:], 16) ^ 0x5A
@@ -164,6 +170,20 @@ def variations(rng, payload, fill, budget, exhaustive_cuts):
                 opts['suffix'] = rng.choice([b'\r\n', b'\n', b' '])
             if rng.random() < 0.2:
                 opts['tag'] = 'g:%d-%d-5' % (1, k)
+            elif rng.random() < 0.25:
+                # details that differ between the parts: a tag block on the opening sentence only (or on some), talkers /
+                # VDM-VDO / channels mixed (a relay that re-labels what it forwards), different line ends
+                opts['tag'] = [rng.choice([None, None, 's:rx%d,c:1671533231' % j]) if j else 'c:1671533231,s:2573535' for j in range(k)]
+                if rng.random() < 0.5:
+                    opts['tag'] = [opts['tag'][0]] + [None] * (k - 1)
+                if rng.random() < 0.6:
+                    opts['talker'] = [rng.choice(TALKERS) for _ in range(k)]
+                if rng.random() < 0.4:
+                    opts['typ'] = [rng.choice(TYPES) for _ in range(k)]
+                if rng.random() < 0.3:
+                    opts['channel'] = [rng.choice(CHANNELS) for _ in range(k)]
+                if rng.random() < 0.3:
+                    opts['suffix'] = [rng.choice([b'', b'\r\n', b'\n', b' ']) for _ in range(k)]
             if rng.random() < 0.2:
                 opts['bad_checksum_on'] = rng.randrange(k)
             yield ('fragments', k, 'in-order' if list(order) == sorted(order) else 'permuted'), opts
